@@ -155,6 +155,7 @@ static SUNLinearSolver ls_new(int kind, sunindextype n, SUNContext ctx) {
     S->kind           = kind;
     S->n              = n;
     S->pivots         = (sunindextype *)malloc(sizeof(sunindextype) * (size_t)n);
+    for (sunindextype i = 0; i < n; i++) S->pivots[i] = i;   // a failed (singular / NaN) factorisation leaves a usable identity
     S->sunctx         = ctx;
     verif_shim.live_solvers++;
     return S;
